@@ -89,6 +89,40 @@ def node_extents(res):
     return ext
 
 
+def direct_token_map_rule(g, A, r4):
+    """a token map written directly by an action: every entry keyed by the
+    text of slot i must record the position of slot i"""
+    import re as _re
+    for prod in g.productions:
+        for oc in A.of(prod):
+            stores = [n.stores.get('_token_map') for n in oc.nodes] + [
+                e[3] for e in oc.effects if e[0] == 'store' and
+                e[2] == '_token_map']
+            for st in [x for x in stores if x]:
+                try:
+                    tree = ast.parse(st, mode='eval').body
+                except SyntaxError:
+                    continue
+                if not isinstance(tree, ast.Dict):
+                    continue
+                for k, v in zip(tree.keys, tree.values):
+                    if not (isinstance(k, ast.Subscript) and isinstance(
+                            k.value, ast.Name) and k.value.id == 'p' and
+                            isinstance(k.slice, ast.Constant)):
+                        continue
+                    idxs = [int(m) for m in _re.findall(
+                        r'findpos\(p, (\d+)\)', ast.unparse(v))]
+                    ok = bool(idxs) and all(
+                        i == k.slice.value for i in idxs)
+                    r4.check(ok, 'direct token map %s [%s]' % (
+                        prod.func, ast.unparse(k)),
+                        '%s: _token_map = %s' % (prod.text, st),
+                        'the entry for the text of slot %s records the '
+                        'position of slot %s: the text is not at that '
+                        'position' % (k.slice.value, idxs),
+                        where='parsers/es5.py:%s' % prod.func)
+
+
 def run(report, index, tier):
     M = models(index)
     from .c20 import guard_tokens, guard_transcriptions
@@ -273,6 +307,7 @@ def run(report, index, tier):
                      'the elision token map is not {\",\" * value: '
                      '[findpos(p, 0)]}: %s' % stores,
                      where='parsers/es5.py:%s' % p.func)
+    direct_token_map_rule(g, A, r4)
     report.count('node construction sites (paths)', sites)
 
     # R11.5 ---------------------------------------------------------------
@@ -338,6 +373,8 @@ def run(report, index, tier):
                  witness=text)
     from .c06 import line_index_rule
     line_index_rule(report, index, 'R11.6')
+    from .c12 import text_passthrough_rule
+    text_passthrough_rule(report, index, 'R11.7')
     report.not_decided.append(
         'agreement of offset/line/column under ES5 line terminator '
         'counting additionally needs R06.4 (line index updated once per '
